@@ -131,6 +131,15 @@ def starts : List Tok → Bool
   | .lp :: _ | .tilde :: _ | .bang :: _ => true
   | _ => false
 
+/-- `PrimitiveType )` after `(` -/
+def primCast : List Tok → Option (Prim × List Tok)
+  | .prim t :: .rp :: r => some (t, r)
+  | _ => none
+
+def headIsLb : List Tok → Bool
+  | .lb :: _ => true
+  | _ => false
+
 mutual
 /-- `parseExpr fuel p ts`: an expression whose binary operators all have precedence ≥ `p` -/
 def parseExpr : Nat → Nat → List Tok → Option (JExpr × List Tok)
@@ -163,42 +172,53 @@ def parseUnary : Nat → List Tok → Option (JExpr × List Tok)
     | .bin .add :: r => (parseUnary f r).map fun (e, r') => (.unary .plus e, r')
     | .tilde :: r => (parseUnary f r).map fun (e, r') => (.unary .compl e, r')
     | .bang :: r => (parseUnary f r).map fun (e, r') => (.unary .not e, r')
-    | .lp :: .prim t :: .rp :: r =>
-      -- ( PrimitiveType ) UnaryExpression
-      (parseUnary f r).map fun (e, r') => (.cast (.prim t) e, r')
     | .lp :: r =>
-      match parseExpr f 0 r with
-      | some (e, .rp :: r') =>
-        (match asQName e with
-         | some q =>
-           if starts r' then
-             -- ( ReferenceType ) UnaryExpressionNotPlusMinus
-             (parseUnary f r').map fun (a, r'') => (.cast (.ref q) a, r'')
-           else suffixes f (.paren e) r'
-         | none => suffixes f (.paren e) r')
-      | _ => none
+      (match primCast r with
+       | some (t, r1) =>
+         -- ( PrimitiveType ) UnaryExpression
+         (parseUnary f r1).map fun (e, r') => (.cast (.prim t) e, r')
+       | none =>
+         match parseExpr f 0 r with
+         | some (e, .rp :: r') => afterParen f e r'
+         | _ => none)
     | .int n :: r => suffixes f (.intLit n) r
     | .long n :: r => suffixes f (.longLit n) r
     | .kwNull :: r => suffixes f .null r
     | .kwThis :: r => suffixes f .this r
     | .id s :: r => suffixes f (.name s) r
-    | .kwNew :: .prim t :: .lb :: r =>
-      -- ArrayCreationExpression with one DimExpr; further dimensions are not supported
+    | .kwNew :: r => parseNew f r
+    | _ => none
+
+/-- `( e )` read: a cast `( ReferenceType ) UnaryExpressionNotPlusMinus` when `e` spells a name and an
+    operand follows, a parenthesised expression (with its suffixes) otherwise -/
+def afterParen : Nat → JExpr → List Tok → Option (JExpr × List Tok)
+  | 0, _, _ => none
+  | f + 1, e, r =>
+    match asQName e with
+    | some q =>
+      if starts r then (parseUnary f r).map fun (a, r') => (.cast (.ref q) a, r')
+      else suffixes f (.paren e) r
+    | none => suffixes f (.paren e) r
+
+/-- after `new`: class instance creation `T ( args )` (JLS 15.9) or array creation `T [ n ]` (15.10)
+    with one dimension expression (more dimensions are not supported: rejected) -/
+def parseNew : Nat → List Tok → Option (JExpr × List Tok)
+  | 0, _ => none
+  | f + 1, ts =>
+    match ts with
+    | .prim t :: .lb :: r =>
       (match parseExpr f 0 r with
-       | some (_, .rb :: .lb :: _) => none
-       | some (n, .rb :: r') => some (.newArr (.prim t) n, r')
+       | some (n, .rb :: r') => if headIsLb r' then none else some (.newArr (.prim t) n, r')
        | _ => none)
-    | .kwNew :: .id s :: r =>
-      let (l, r1) := scanQTail r
-      (match r1 with
-       | .lp :: r2 =>
+    | .id s :: r =>
+      (match scanQTail r with
+       | (l, .lp :: r2) =>
          (match parseArgs f r2 with
           | some (as, r3) => suffixes f (.newObj (s :: l) as) r3
           | none => none)
-       | .lb :: r2 =>
+       | (l, .lb :: r2) =>
          (match parseExpr f 0 r2 with
-          | some (_, .rb :: .lb :: _) => none
-          | some (n, .rb :: r') => some (.newArr (.ref (s :: l)) n, r')
+          | some (n, .rb :: r') => if headIsLb r' then none else some (.newArr (.ref (s :: l)) n, r')
           | _ => none)
        | _ => none)
     | _ => none
@@ -248,13 +268,6 @@ end
 
 /-! ## DAD's IR expressions and the Writer -/
 
-/-- the three cases `visit_condz_expression` distinguishes by `arg.get_type()` -/
-inductive ZKind where
-  | bool   -- 'Z'
-  | num    -- one of 'VBSCIJFD'
-  | ref    -- anything else
-  deriving DecidableEq, Repr
-
 /-- the operators of `Op` (opcode_ins.py) as they occur in `UnaryExpression` -/
 inductive DUnOp where
   | neg     -- Op.NEG '-'
@@ -284,8 +297,15 @@ inductive DExpr where
   | cond (o : BinOp) (a b : DExpr)
   /-- `BinaryCompExpression` with `op == 'cmp'`: `Long.compare(a, b)` for long operands, `a cmp b` otherwise -/
   | cmp (long : Bool) (a b : DExpr)
-  /-- `ConditionalZExpression` -/
-  | condz (o : BinOp) (a : DExpr) (k : ZKind)
+  /-- `ConditionalZExpression` whose operand is a `BinaryCompExpression` (`visit_condz_expression` replaces
+      its `op` and prints it): `a op b` -/
+  | condzCmp (o : BinOp) (a b : DExpr)
+  /-- `ConditionalZExpression` on an operand of type 'Z': `!a` for `==`, `a` otherwise -/
+  | condzBool (o : BinOp) (a : DExpr)
+  /-- `ConditionalZExpression` on an operand of a type in 'VBSCIJFD': `a op 0` -/
+  | condzNum (o : BinOp) (a : DExpr)
+  /-- `ConditionalZExpression` on any other operand: `a op null` -/
+  | condzRef (o : BinOp) (a : DExpr)
   /-- `InstanceExpression`: `a.name` -/
   | getField (a : DExpr) (name : String)
   /-- `StaticExpression`: `cls.name` -/
@@ -331,10 +351,10 @@ def print : DExpr → List Tok
   | .cond o a b => print a ++ [.bin o] ++ print b
   | .cmp true a b => [.id "Long", .dot, .id "compare", .lp] ++ print a ++ [.comma] ++ print b ++ [.rp]
   | .cmp false a b => print a ++ [.id "cmp"] ++ print b
-  | .condz o (.cmp _ a b) _ => print a ++ [.bin o] ++ print b
-  | .condz o a .bool => if o = .eq then .bang :: print a else print a
-  | .condz o a .num => print a ++ [.bin o, .int 0]
-  | .condz o a .ref => print a ++ [.bin o, .kwNull]
+  | .condzCmp o a b => print a ++ [.bin o] ++ print b
+  | .condzBool o a => if o = .eq then .bang :: print a else print a
+  | .condzNum o a => print a ++ [.bin o, .int 0]
+  | .condzRef o a => print a ++ [.bin o, .kwNull]
   | .getField a n => print a ++ [.dot, .id n]
   | .getStatic h t n => qnToks h t ++ [.dot, .id n]
   | .aload a i => print a ++ [.lb] ++ print i ++ [.rb]
@@ -374,10 +394,10 @@ def toJava : DExpr → JExpr
   | .checkCast h t a => .paren (.cast (.ref (h :: t)) (toJava a))
   | .cond o a b => .bin o (toJava a) (toJava b)
   | .cmp _ a b => .call (.select (.name "Long") "compare") [toJava a, toJava b]
-  | .condz o (.cmp _ a b) _ => .bin o (toJava a) (toJava b)
-  | .condz o a .bool => if o = .eq then .unary .not (toJava a) else toJava a
-  | .condz o a .num => .bin o (toJava a) (.intLit 0)
-  | .condz o a .ref => .bin o (toJava a) .null
+  | .condzCmp o a b => .bin o (toJava a) (toJava b)
+  | .condzBool o a => if o = .eq then .unary .not (toJava a) else toJava a
+  | .condzNum o a => .bin o (toJava a) (.intLit 0)
+  | .condzRef o a => .bin o (toJava a) .null
   | .getField a n => .select (toJava a) n
   | .getStatic h t n => .select (qnExpr h t) n
   | .aload a i => .index (toJava a) (toJava i)
@@ -399,9 +419,8 @@ def level : DExpr → Nat
   | .const v _ => if v < 0 then 13 else 15
   | .cond o _ _ => o.prec
   | .cmp long _ _ => if long then 15 else 0
-  | .condz o (.cmp _ _ _) _ => o.prec
-  | .condz o a .bool => if o = .eq then 13 else level a
-  | .condz o _ _ => o.prec
+  | .condzCmp o _ _ | .condzNum o _ | .condzRef o _ => o.prec
+  | .condzBool o _ => if o = .eq then 13 else 15
   | .newArray _ _ => 14
   | _ => 15
 
@@ -419,9 +438,9 @@ def wf : DExpr → Bool
   | .checkCast _ _ a => wf a && decide (14 ≤ level a)
   | .cond o a b => wf a && wf b && decide (o.prec ≤ level a) && decide (o.prec < level b)
   | .cmp long a b => long && wf a && wf b
-  | .condz o (.cmp _ a b) _ => wf a && wf b && decide (o.prec ≤ level a) && decide (o.prec < level b)
-  | .condz o a .bool => wf a && (o != .eq || decide (13 ≤ level a))
-  | .condz o a _ => wf a && decide (o.prec ≤ level a)
+  | .condzCmp o a b => wf a && wf b && decide (o.prec ≤ level a) && decide (o.prec < level b)
+  | .condzBool o a => wf a && decide ((if o = .eq then 13 else 15) ≤ level a)
+  | .condzNum o a | .condzRef o a => wf a && decide (o.prec ≤ level a)
   | .getField a _ => wf a && decide (15 ≤ level a)
   | .aload a i => wf a && wf i && decide (15 ≤ level a)
   | .alength a => wf a && decide (15 ≤ level a)
@@ -441,18 +460,24 @@ instance (e : DExpr) : Decidable (WF e) := inferInstanceAs (Decidable (wf e = tr
 
 /-! ## printer variants that drop parentheses (for the refutations) -/
 
-/-- like `print`, but a `BinaryExpression` directly inside a `BinaryExpression` loses its parentheses -/
+/-- a `BinaryExpression` without its parentheses -/
 def printBare : DExpr → List Tok
   | .bin o a b => print a ++ [.bin o] ++ print b
   | e => print e
 
-def printNoParen : DExpr → List Tok
-  | .bin o a b => [.lp] ++ printBare a ++ [.bin o] ++ printBare b ++ [.rp]
+/-- like `print`, but the right operand of the outer `BinaryExpression` loses its parentheses -/
+def printDropRight : DExpr → List Tok
+  | .bin o a b => [.lp] ++ print a ++ [.bin o] ++ printBare b ++ [.rp]
+  | e => print e
+
+/-- like `print`, but the left operand of the outer `BinaryExpression` loses its parentheses -/
+def printDropLeft : DExpr → List Tok
+  | .bin o a b => [.lp] ++ printBare a ++ [.bin o] ++ print b ++ [.rp]
   | e => print e
 
 /-- a whole token list as one expression -/
 def parse (ts : List Tok) : Option JExpr :=
-  match parseExpr (8 * ts.length + 8) 0 ts with
+  match parseExpr (8 * ts.length + 16) 0 ts with
   | some (e, []) => some e
   | _ => none
 
